@@ -4,7 +4,7 @@ import Ogorek.Dict
 /-!
   Encode → Decode: the semantic half of the round trip (C03, C05, C18).
 
-  `Rep mc heap r v` — the decoder value `r` (with its `href`s into `heap`) *represents* the
+  `Rep mc ρ heap r v` — the decoder value `r` (with its `href`s into `heap`) *represents* the
   value `v` that was given to the encoder: identical in type and content, except
   * `*big.Int` objects are new allocations (fresh ids),
   * `ByteString` comes back as `string` when StrictUnicode is off,
@@ -18,7 +18,7 @@ import Ogorek.Dict
 namespace Ogorek
 
 mutual
-def Rep (mc : MCfg) (heap : List HObj) (r : GoVal) : GoVal → Prop
+def Rep (mc : MCfg) (ρ : GoVal → GoVal) (heap : List HObj) (r : GoVal) : GoVal → Prop
   | .none => r = .none
   | .nil => r = .none
   | .bool b => r = .bool b
@@ -30,20 +30,20 @@ def Rep (mc : MCfg) (heap : List HObj) (r : GoVal) : GoVal → Prop
   | .bytes s => r = .bytes s
   | .bytearray s => r = .bytearray s
   | .cls m n => r = .cls m n
-  | .list xs => ∃ rs, r = .list rs ∧ RepList mc heap rs xs
-  | .tuple xs => ∃ rs, r = .tuple rs ∧ RepList mc heap rs xs
-  | .call m n args => ∃ rs, r = .call m n rs ∧ RepList mc heap rs args
-  | .ref pid => ∃ p, r = .ref p ∧ Rep mc heap p pid
-  | .map kvs => ∃ id es, r = .href id ∧ heap[id]? = some { kind := dictKind mc.cfg, kvs := es } ∧ RepPairs mc heap es kvs
-  | .dict kvs => ∃ id es, r = .href id ∧ heap[id]? = some { kind := dictKind mc.cfg, kvs := es } ∧ RepPairs mc heap es kvs
+  | .list xs => ∃ rs, r = .list rs ∧ RepList mc ρ heap rs xs
+  | .tuple xs => ∃ rs, r = .tuple rs ∧ RepList mc ρ heap rs xs
+  | .call m n args => ∃ rs, r = .call m n rs ∧ RepList mc ρ heap rs args
+  | .ref pid => ∃ p, r = ρ p ∧ isMark r = false ∧ Rep mc ρ heap p pid
+  | .map kvs => ∃ id es, r = .href id ∧ heap[id]? = some { kind := dictKind mc.cfg, kvs := es } ∧ RepPairs mc ρ heap es kvs
+  | .dict kvs => ∃ id es, r = .href id ∧ heap[id]? = some { kind := dictKind mc.cfg, kvs := es } ∧ RepPairs mc ρ heap es kvs
   | .uint _ | .complex _ _ | .user _ | .mark | .href _ | .cycle => False
-def RepList (mc : MCfg) (heap : List HObj) : List GoVal → List GoVal → Prop
+def RepList (mc : MCfg) (ρ : GoVal → GoVal) (heap : List HObj) : List GoVal → List GoVal → Prop
   | [], [] => True
-  | r :: rs, x :: xs => Rep mc heap r x ∧ RepList mc heap rs xs
+  | r :: rs, x :: xs => Rep mc ρ heap r x ∧ RepList mc ρ heap rs xs
   | _, _ => False
-def RepPairs (mc : MCfg) (heap : List HObj) : Entries → List (GoVal × GoVal) → Prop
+def RepPairs (mc : MCfg) (ρ : GoVal → GoVal) (heap : List HObj) : Entries → List (GoVal × GoVal) → Prop
   | [], [] => True
-  | (rk, rv) :: es, (k, v) :: kvs => Rep mc heap rk k ∧ Rep mc heap rv v ∧ RepPairs mc heap es kvs
+  | (rk, rv) :: es, (k, v) :: kvs => Rep mc ρ heap rk k ∧ Rep mc ρ heap rv v ∧ RepPairs mc ρ heap es kvs
   | _, _ => False
 end
 
@@ -56,62 +56,63 @@ theorem getElem?_append_of_some {α} {l : List α} {i : Nat} {a : α} (t : List 
   rw [List.getElem?_append_left hi]; exact h
 
 mutual
-theorem Rep.mono (mc : MCfg) (h t : List HObj) (r : GoVal) : (v : GoVal) → Rep mc h r v → Rep mc (h ++ t) r v
+theorem Rep.mono (mc : MCfg) (ρ : GoVal → GoVal) (h t : List HObj) (r : GoVal) : (v : GoVal) → Rep mc ρ h r v → Rep mc ρ (h ++ t) r v
   | .none, hr | .nil, hr | .bool _, hr | .int _, hr | .big _ _, hr | .float _, hr | .str _, hr | .bytestr _, hr
   | .bytes _, hr | .bytearray _, hr | .cls _ _, hr => by simpa [Rep] using hr
   | .uint _, hr | .complex _ _, hr | .user _, hr | .mark, hr | .href _, hr | .cycle, hr => by simp [Rep] at hr
   | .list xs, hr => by
     simp only [Rep] at hr ⊢
     obtain ⟨rs, e, hl⟩ := hr
-    exact ⟨rs, e, RepList.mono mc h t rs xs hl⟩
+    exact ⟨rs, e, RepList.mono mc ρ h t rs xs hl⟩
   | .tuple xs, hr => by
     simp only [Rep] at hr ⊢
     obtain ⟨rs, e, hl⟩ := hr
-    exact ⟨rs, e, RepList.mono mc h t rs xs hl⟩
+    exact ⟨rs, e, RepList.mono mc ρ h t rs xs hl⟩
   | .call m n xs, hr => by
     simp only [Rep] at hr ⊢
     obtain ⟨rs, e, hl⟩ := hr
-    exact ⟨rs, e, RepList.mono mc h t rs xs hl⟩
+    exact ⟨rs, e, RepList.mono mc ρ h t rs xs hl⟩
   | .ref p, hr => by
     simp only [Rep] at hr ⊢
-    obtain ⟨q, e, hp⟩ := hr
-    exact ⟨q, e, Rep.mono mc h t q p hp⟩
+    obtain ⟨q, e, hm, hp⟩ := hr
+    exact ⟨q, e, hm, Rep.mono mc ρ h t q p hp⟩
   | .map kvs, hr => by
     simp only [Rep] at hr ⊢
     obtain ⟨id, es, e, hg, hp⟩ := hr
-    exact ⟨id, es, e, getElem?_append_of_some t hg, RepPairs.mono mc h t es kvs hp⟩
+    exact ⟨id, es, e, getElem?_append_of_some t hg, RepPairs.mono mc ρ h t es kvs hp⟩
   | .dict kvs, hr => by
     simp only [Rep] at hr ⊢
     obtain ⟨id, es, e, hg, hp⟩ := hr
-    exact ⟨id, es, e, getElem?_append_of_some t hg, RepPairs.mono mc h t es kvs hp⟩
-theorem RepList.mono (mc : MCfg) (h t : List HObj) : (rs xs : List GoVal) → RepList mc h rs xs → RepList mc (h ++ t) rs xs
+    exact ⟨id, es, e, getElem?_append_of_some t hg, RepPairs.mono mc ρ h t es kvs hp⟩
+theorem RepList.mono (mc : MCfg) (ρ : GoVal → GoVal) (h t : List HObj) : (rs xs : List GoVal) → RepList mc ρ h rs xs → RepList mc ρ (h ++ t) rs xs
   | [], [], _ => by simp [RepList]
   | [], _ :: _, hr => by simp [RepList] at hr
   | _ :: _, [], hr => by simp [RepList] at hr
   | r :: rs, x :: xs, hr => by
     simp only [RepList] at hr ⊢
-    exact ⟨Rep.mono mc h t r x hr.1, RepList.mono mc h t rs xs hr.2⟩
-theorem RepPairs.mono (mc : MCfg) (h t : List HObj) : (es : Entries) → (kvs : List (GoVal × GoVal)) →
-    RepPairs mc h es kvs → RepPairs mc (h ++ t) es kvs
+    exact ⟨Rep.mono mc ρ h t r x hr.1, RepList.mono mc ρ h t rs xs hr.2⟩
+theorem RepPairs.mono (mc : MCfg) (ρ : GoVal → GoVal) (h t : List HObj) : (es : Entries) → (kvs : List (GoVal × GoVal)) →
+    RepPairs mc ρ h es kvs → RepPairs mc ρ (h ++ t) es kvs
   | [], [], _ => by simp [RepPairs]
   | [], _ :: _, hr => by simp [RepPairs] at hr
   | _ :: _, [], hr => by simp [RepPairs] at hr
   | (rk, rv) :: es, (k, v) :: kvs, hr => by
     simp only [RepPairs] at hr ⊢
-    exact ⟨Rep.mono mc h t rk k hr.1, Rep.mono mc h t rv v hr.2.1, RepPairs.mono mc h t es kvs hr.2.2⟩
+    exact ⟨Rep.mono mc ρ h t rk k hr.1, Rep.mono mc ρ h t rv v hr.2.1, RepPairs.mono mc ρ h t es kvs hr.2.2⟩
 end
 
 /-- What represents a value is never the decoder's stack marker. -/
-theorem Rep.not_mark {mc : MCfg} {h : List HObj} {r v : GoVal} (hr : Rep mc h r v) : isMark r = false := by
+theorem Rep.not_mark {mc : MCfg} {ρ : GoVal → GoVal} {h : List HObj} {r v : GoVal} (hr : Rep mc ρ h r v) : isMark r = false := by
   cases v <;> simp only [Rep] at hr
   all_goals first
     | (subst hr; first | rfl | (split <;> rfl))
     | (obtain ⟨_, rfl⟩ := hr; rfl)
     | (obtain ⟨_, rfl, _⟩ := hr; rfl)
     | (obtain ⟨_, _, rfl, _⟩ := hr; rfl)
+    | (obtain ⟨_, _, hm, _⟩ := hr; exact hm)
     | exact hr.elim
 
-theorem RepList.length {mc : MCfg} {h : List HObj} : {rs xs : List GoVal} → RepList mc h rs xs → rs.length = xs.length
+theorem RepList.length {mc : MCfg} {ρ : GoVal → GoVal} {h : List HObj} : {rs xs : List GoVal} → RepList mc ρ h rs xs → rs.length = xs.length
   | [], [], _ => rfl
   | [], _ :: _, hr => by simp [RepList] at hr
   | _ :: _, [], hr => by simp [RepList] at hr
@@ -119,7 +120,7 @@ theorem RepList.length {mc : MCfg} {h : List HObj} : {rs xs : List GoVal} → Re
     simp only [RepList] at hr
     simp [RepList.length hr.2]
 
-theorem RepList.no_mark {mc : MCfg} {h : List HObj} : {rs xs : List GoVal} → RepList mc h rs xs → ∀ r ∈ rs, isMark r = false
+theorem RepList.no_mark {mc : MCfg} {ρ : GoVal → GoVal} {h : List HObj} : {rs xs : List GoVal} → RepList mc ρ h rs xs → ∀ r ∈ rs, isMark r = false
   | [], [], _ => by simp
   | [], _ :: _, hr => by simp [RepList] at hr
   | _ :: _, [], hr => by simp [RepList] at hr
@@ -130,8 +131,8 @@ theorem RepList.no_mark {mc : MCfg} {h : List HObj} : {rs xs : List GoVal} → R
     · exact hr.1.not_mark
     · exact RepList.no_mark hr.2 x hx
 
-theorem RepList.snoc {mc : MCfg} {h : List HObj} : {rs xs : List GoVal} → {r x : GoVal} → RepList mc h rs xs → Rep mc h r x →
-    RepList mc h (rs ++ [r]) (xs ++ [x])
+theorem RepList.snoc {mc : MCfg} {ρ : GoVal → GoVal} {h : List HObj} : {rs xs : List GoVal} → {r x : GoVal} → RepList mc ρ h rs xs → Rep mc ρ h r x →
+    RepList mc ρ h (rs ++ [r]) (xs ++ [x])
   | [], [], _, _, _, hr => by simp [RepList, hr]
   | [], _ :: _, _, _, hl, _ => by simp [RepList] at hl
   | _ :: _, [], _, _, hl, _ => by simp [RepList] at hl
